@@ -217,8 +217,11 @@ func runReuse(c reuseCase) (f *vh.Failure) {
 	create := func() (*tds.Channel, *vh.Failure) {
 		var ch *tds.Channel
 		var err error
-		if !within(5*time.Second, func() { ch, err = e.conn.NewChannel() }) || err != nil {
-			return nil, vh.Failf("C12/newchannel", "NewChannel: %v", err)
+		if !within(5*time.Second, func() { ch, err = e.conn.NewChannel() }) {
+			return nil, vh.Failf("C12/newchannel", "%+v: NewChannel did not return within 5 s although the server acknowledges every setup", c)
+		}
+		if err != nil {
+			return nil, vh.Failf("C12/newchannel", "%+v: NewChannel: %v", c, err)
 		}
 		return ch, nil
 	}
